@@ -131,6 +131,18 @@ Definition from_flat_row_major (size : N * N) (values : list T) : outcome matrix
   then match values with [] => Panic | _ => Ok (mkM values (fst size) (snd size)) end
   else Panic.
 
+(* Matrix::from_fn(size, f): `length = size.0 * size.1` (unchecked; only the capacity), the
+   ShapeIterator walks [size.0, size.1] in row-major order (nothing at all when a length is 0),
+   every produced value is pushed, then from_flat_row_major validates *)
+Definition from_fn (size : N * N) (f : N -> N -> T) : outcome matrix :=
+  from_flat_row_major size (map (fun p => f (fst p) (snd p)) (pairs (fst size) (snd size))).
+
+(* Matrix::empty(value, size): assert size.0 > 0 && size.1 > 0; vec![value; size.0 * size.1] *)
+Definition empty_ctor (value : T) (size : N * N) : outcome matrix :=
+  if (0 <? fst size) && (0 <? snd size)
+  then Ok (mkM (repeat value (N.to_nat (fst size * snd size))) (fst size) (snd size))
+  else Panic.
+
 (* ---- element access ---- *)
 Definition get_index (m : matrix) (row column : N) : N := column + row * m_cols m.
 
